@@ -4,7 +4,8 @@ PROP = dict(
     id="C02",
     module="FV.C02.Props",
     coq_targets=["theories/C02/Check.vo", "theories/C02/Search.vo", "theories/C02/Props.vo"],
-    theorems=["task_graph_safe_in_all_schedules", "bookkeeping_exact", "launch_guarantees"],
+    theorems=["task_graph_safe_in_all_schedules", "bookkeeping_exact", "launch_guarantees",
+              "completion_delivery_never_panics"],
     prelude="From Coq Require Import List NArith Bool.\nFrom FV.Base Require Import Harness.\nFrom FV.C02 Require Import Model Check Search.",
     found_in_show=lambda shows: any("Launch" in x for x in shows),
     correspondence_key="unordered-conflicting-access",
@@ -41,6 +42,7 @@ MANIFEST = dict(
          "the source as replay.",
     note="Trusted: Coq kernel + vm_compute; hand-written scheduler model and its tie (hooks + replay); read/write sets are "
          "those observed in the recorded run; rayon/crossbeam abstracted to arbitrary interleaving, atomics SC. "
-         "Not proved: absence of handler-target panics and progress (UnableToProceed) for all schedules - both are "
-         "checked on every recorded run only. No axioms.",
+         "Proved: delivering a completion never hits the completed-twice / not-pending panics. Not proved: absence of "
+         "the handlers' 'has to be pending' panics and progress (UnableToProceed) for all schedules - both are checked "
+         "on every recorded run only. No axioms.",
 )
